@@ -103,6 +103,28 @@ impl COracle for ExchangeOracle {
                     }
                     ctx.stats.probe("unblinded_equals_direct_evaluation");
                 }
+                // A client that blinds with a scalar of ITS OWN choosing, through the public conversions
+                // (CurveScalar: From<RistrettoScalar> / From<[u8; 32]>, Point: From<&[u8]>): request r'*H(input),
+                // unblind with CurveScalar::from(r'). Same key, tag and input, so the same finalised output.
+                if ctx.ch.chance(1, 4) {
+                    use curve25519_dalek::{ristretto::CompressedRistretto, scalar::Scalar};
+                    let mut rb = [0u8; 32];
+                    rb.copy_from_slice(&ctx.ch.bytes(32));
+                    let r2 = Scalar::from_bytes_mod_order(rb);
+                    if let (Some(h), false) = (CompressedRistretto(*h_lib.as_bytes()).decompress(), r2 == Scalar::ZERO) {
+                        let p2 = pp::Point::from(&(r2 * h).compress().to_bytes()[..]);
+                        if let Ok(e2) = sv.server.eval(&p2, x.md, false) {
+                            let cs = if ctx.ch.chance(1, 2) { pp::CurveScalar::from(r2) } else { pp::CurveScalar::from(r2.to_bytes()) };
+                            let un2 = pp::Client::unblind(&e2.output, &cs);
+                            let mut out2 = [0u8; 32];
+                            pp::Client::finalize(x.input, x.md, &un2, &mut out2);
+                            if out2 != out {
+                                return Err(Violation::new("c12.not_function", "own_scalar_client", format!("client {}: for (key {}, tag {}, input {}) a client that blinds with a scalar of its own (public conversions) finalises to another output than a client that used Client::blind", x.client, x.key_id, x.md, hex_short(x.input))));
+                            }
+                            ctx.stats.probe("own_scalar_client_agrees");
+                        }
+                    }
+                }
             }
         }
         if ggm_ref::finalize(x.input, x.md, un.as_bytes()) == out {
